@@ -27,13 +27,18 @@ registry! {
     "C15" => c15,
     "C16" => c16,
     "C17" => c17,
+    "C18" => c18,
     "C19" => c19,
+    "C20" => c20,
     "C23" => c23,
     "C24" => c24,
     "C25" => c25,
     "C26" => c26,
     "C27" => c27,
     "C28" => c28,
+    "C29" => c29,
+    "C30" => c30,
+    "C31" => c31,
     "C34" => c34,
     "C36" => c36,
     "C37" => c37,
